@@ -10,4 +10,5 @@ for m in spec/*.tla; do
 done
 rm -f "$out"
 /venv/bin/python -c "import ply, renew, hypothesis, prophy, prophyc; print('python ok', prophy.__file__)"
+PYTHONPATH="$(pwd)" PYTHONDONTWRITEBYTECODE=1 /venv/bin/python -m vf.selftest || { echo "binding self-test failed"; exit 2; }
 echo "setup ok"
